@@ -34,7 +34,7 @@ package home
 //@ func (ab *authRateLimiter) remove(usrID string)
 //@   property C12
 //@   requires !held(ab.failedAuthsLock)
-//@   modifies entries(ab.failedAuths), LockW
+//@   modifies entries(ab.failedAuths), LockW, lastNow
 //@   ensures !(usrID in ab.failedAuths)
 //@   ensures forall u string :: u != usrID ==> (u in ab.failedAuths) == old(u in ab.failedAuths) && ab.failedAuths[u] == old(ab.failedAuths[u])
 //@   ensures !held(ab.failedAuthsLock)
@@ -47,7 +47,7 @@ package home
 //@ func (ab *authRateLimiter) check(usrID string) (left time.Duration)
 //@   property C12
 //@   requires !held(ab.failedAuthsLock)
-//@   modifies entries(ab.failedAuths), LockW
+//@   modifies entries(ab.failedAuths), LockW, lastNow
 //@   ensures !held(ab.failedAuthsLock)
 //@   ensures blocked-needs-record: left > 0 ==> old(usrID in ab.failedAuths) && old(ab.failedAuths[usrID]).num >= ab.maxAttempts
 //@   ensures record-kept: left > 0 ==> usrID in ab.failedAuths && ab.failedAuths[usrID] == old(ab.failedAuths[usrID])
@@ -57,7 +57,7 @@ package home
 //@   property C12
 //@   requires ab.failedAuths != nil && !held(ab.failedAuthsLock)
 //@   requires usrID in ab.failedAuths ==> ab.failedAuths[usrID].num < 18446744073709551615
-//@   modifies entries(ab.failedAuths), LockW
+//@   modifies entries(ab.failedAuths), LockW, lastNow
 //@   ensures !held(ab.failedAuthsLock)
 //@   ensures present: usrID in ab.failedAuths
 //@   ensures num: ab.failedAuths[usrID].num == (old(usrID in ab.failedAuths) ? old(ab.failedAuths[usrID].num) + 1 : 1)
